@@ -72,6 +72,15 @@ fn c14_port_builders() {
     assert!(PortFilter::new().matches(sp, dp));
 }
 
+#[kani::proof]
+#[kani::unwind(6)]
+fn c14_any_port_range() {
+    // any-port mode with one half-open range on either side: either port inside the range matches
+    let (a, b, sp, dp): (u16, u16, u16, u16) = (kani::any(), kani::any(), kani::any(), kani::any());
+    let inside = |p: u16| a <= p && p < b;
+    assert!(PortFilter::new().destination_range(a..b).any_port().matches(sp, dp) == (inside(sp) || inside(dp)));
+    assert!(PortFilter::new().source_range(a..b).any_port().matches(sp, dp) == (inside(sp) || inside(dp)));
+}
 fn any_v4() -> Ipv4Addr { Ipv4Addr::from(kani::any::<u32>()) }
 fn any_v6() -> Ipv6Addr { Ipv6Addr::from(kani::any::<u128>()) }
 fn any_ip() -> IpAddr { if kani::any() { IpAddr::V4(any_v4()) } else { IpAddr::V6(any_v6()) } }
